@@ -93,6 +93,11 @@ fn random_event(rng: &mut Rng, serial: u32, ts: &mut u32) -> Event {
         2 => 0x7FFF_FFFF,
         _ => rng.next() as u32,
     });
+    // one event in eight lands exactly on a special tick: the counter wrapped onto 0, its last tick,
+    // the middle of the range (a timestamp of 0 must not be mistaken for "no timestamp yet")
+    if rng.below(8) == 0 {
+        *ts = *rng.pick(&[0u32, 0, 0xFFFF_FFFF, 0x8000_0000, 1]);
+    }
     let kind = rng.below(100);
     let id: u16 = if kind < 70 { 1 } else if kind < 80 { 4 } else if kind < 90 { 8 } else { [2u16, 3, 0, 9][rng.below(4) as usize] };
     let mut banks = Vec::new();
